@@ -175,7 +175,7 @@ func ldWrite(w io.Writer, d ...[]byte) error {
 		sum += uint64(len(s))
 	}
 
-	buf := make([]byte, 8)
+	buf := make([]byte, binary.MaxVarintLen64)
 	n := binary.PutUvarint(buf, sum)
 	_, err := w.Write(buf[:n])
 	if err != nil {
